@@ -182,7 +182,11 @@ def make_x86(rng, name, shape=None, force_saved=None, near_tail=False):
         f.emit(I("add", alloc), "epilogue", x_add_rsp(alloc))
     for r in reversed(saved):
         f.emit(I("pop", r), "epilogue", x_pop(r))
-    if near_tail:
+    if near_tail == "reg":
+        f.emit(I("jmp"), "epilogue", rng.choice([bytes([0xFF, 0xE0]), bytes([0xFF, 0xE1]), bytes([0xFF, 0xE2])]))    # jmp rax / rcx / rdx
+    elif near_tail == "mem":
+        f.emit(I("jmp"), "epilogue", bytes([0xFF, 0x25, rng.below(256), rng.below(256), 0, 0]))                          # jmp [rip+d]
+    elif near_tail:
         # tail call to the function directly behind this one (see x_tail_jmp)
         f.emit(I("jmp"), "epilogue", rng.choice([bytes([0xE9, rng.below(4), 0, 0, 0]), bytes([0xEB, rng.below(4)])]))
     elif rng.chance(3, 4):
@@ -416,6 +420,9 @@ def make_program(rng, arch, nfuncs=8, force_last_noreturn=False):
         funcs.append(make_x86(rng, "f%d" % len(funcs), "frameless", force_saved=[15, 14, 13, 12, RBX, RBP]))
         # a frameless function with three pops that ends in a tail call to its neighbour
         funcs.append(make_x86(rng, "f%d" % len(funcs), "frameless", force_saved=[RBX, 14, 15], near_tail=True))
+        # ... and one each whose tail call goes through a register / through memory (`ff /4`; seeded change C02-x86-8)
+        funcs.append(make_x86(rng, "f%d" % len(funcs), "frameless", force_saved=[RBX, 12], near_tail="reg"))
+        funcs.append(make_x86(rng, "f%d" % len(funcs), "frameless", force_saved=[13], near_tail="mem"))
         funcs.append(make_x86(rng, "f%d" % len(funcs), rng.choice(["frameless", "indirect"]),
                               force_saved=rng.choice([[RBP, 15, 14, 13, 12, RBX], [15, 14, 13, 12, RBX, RBP], [15, 14, RBP, 13, 12, RBX]])))
         funcs.append(make_x86(rng, "f%d" % len(funcs), "indirect", force_saved=rng.choice([[RBP], [RBX, RBP], [RBP, 12, 13]])))
